@@ -183,3 +183,29 @@ def check(ctx):
         ctx.dominated("4.record-before-spend", b, [sp], by_blocks=[rec], detail="the tentative record is saved before the inputs are spent permanently")
         rm = ctx.one_call(b, "fuel_core_txpool::storage::Storage::remove_transaction")
         ctx.paired("4.pooled-records-tentative", rm, [rec], on="ok")
+
+    # -- 5. outputs of a transaction that was executed or skipped leave the extracted-outputs cache completely --
+    with ctx.clause("5.extracted-outputs-cleanup"):
+        EOQ = "fuel_core_txpool::extracted_outputs::ExtractedOutputs"
+        b = F.unit(f"{EOQ}::new_executed_transaction").root
+        rm = [c for c in b.calls if c.bb in b.live and c.name == "remove" and c.path.startswith("std::collections::hash::map::HashMap")]
+        by_field = {}
+        for c in rm:
+            for k, v in Origins(b, 1).atoms(c.args[0]):
+                if k == "field" and str(v).startswith(EOQ + "."):
+                    by_field.setdefault(str(v).split(".")[-1], []).append(c)
+        for fld in ("coins_created", "contract_created_by_tx"):
+            cs = by_field.get(fld, [])
+            ctx.expect_sites(f"5.{fld}-removed", cs, at_least=1, what=f"self.{fld}.remove(tx_id)")
+            if cs:
+                ctx.must_pass(f"5.{fld}-removed-on-every-path", b, cs, exits="all",
+                              detail=f"every return of new_executed_transaction has dropped the transaction's entry of {fld} "
+                                     "(a left-over coin output of a skipped or rolled-back transaction lets a later child pass input validation although the coin never existed)")
+                ctx.arg_origin(f"5.{fld}-keyed-by-the-transaction", cs[0], 1, "param:2", depth=0)
+        sk = F.unit(f"{EOQ}::new_skipped_transaction").root
+        ne = [c for c in sk.calls if c.bb in sk.live and c.is_path(f"{EOQ}::new_executed_transaction")]
+        direct = [c for c in sk.calls if c.bb in sk.live and c.name == "remove"]
+        ctx.add("5.skipped-transaction-cleans-the-same-way", "MIRROR", len(ne) == 1 or len(direct) >= 2, "new_skipped_transaction drops the same entries (through new_executed_transaction)",
+                sites=[c.where() for c in ne + direct], site_key="skip")
+        if ne:
+            ctx.must_pass("5.skipped-cleanup-on-every-path", sk, ne, exits="all")
